@@ -89,7 +89,7 @@ def check(ctx, rep):
                 good = src == selff("data") and n == S("dc")
     rep.check(good, "printing-order", MC + "::to_printer", "chunks", "printed cell n = data[n*dc .. (n+1)*dc]", "to_printer does not cut the data into consecutive digit_count-sized chunks")
     # ---------------- verifier roles
-    vr = roles.ctor_field_roles(ctx, MV + "::new", MV, {1: "cc", 2: "h", 4: "w"}, lambda c: "coords" if util.is_call(c, "matrix_card::generate_coordinates") else None) or {}
+    vr = roles.ctor_field_roles(ctx, MV + "::new", MV, {1: "cc", 2: "h", 4: "w"}, lambda c: "coords" if util.is_call(c, "matrix_card::generate_coordinates") else None, engine="wrap") or {}
     vi = roles.inv(vr)
     if not all(k in vi for k in ("cc", "h", "w", "coords")):
         rep.violation("round-guard", MV, "roles", "cannot bind MatrixCardVerifier fields: %s" % vr)
